@@ -47,6 +47,10 @@ func fnClientUnblock(ctx *cmdContext, args map[string]any) (output respValue, er
 	defer clientsMu.Unlock()
 
 	client, exists := clients[id]
+	if exists && client.dss != ctx.cs.dss {
+		// a client of another emulator in this process
+		exists = false
+	}
 	if exists {
 		reason := ""
 		if isError {
@@ -163,7 +167,7 @@ func fnClientKill(ctx *cmdContext, args map[string]any) (output respValue, err e
 		return
 	}
 
-	processAllClients(func(id int64, cs *clientState) {
+	processEmulatorClients(ctx.cs.dss, func(id int64, cs *clientState) {
 		shouldClose := cs.client.MatchFilter(filter)
 
 		if shouldClose {
@@ -231,7 +235,7 @@ func fnClientList(ctx *cmdContext, args map[string]any) (output respValue, err e
 
 	var list strings.Builder
 
-	processAllClients(func(id int64, cs *clientState) {
+	processEmulatorClients(ctx.cs.dss, func(id int64, cs *clientState) {
 		included := true
 		if len(ids) > 0 {
 			_, included = ids[cs.id]
